@@ -156,8 +156,8 @@ class Duck:
     being reported as a violation of the property -- a refactoring that merely calls another str method
     on a value must not raise an alarm"""
     def __getattr__(self, name):
-        if name.startswith('__') and name.endswith('__'):
-            raise AttributeError(name)
+        if name.startswith('_'):
+            raise AttributeError(name)       # private / dunder lookups (getattr with a default, protocol probes) behave normally
         if not CONCRETE:
             try:
                 from crosshair.util import IgnoreAttempt
